@@ -23,8 +23,8 @@ for p in props:
                 "text": d["level_text"],
                 "design_ref": f"DESIGN.md section 6, {pid}",
             },
-            "level_note": d["level_note"],
-            "technique": d["technique"],
+            "level_note": d["level_note"] + " Source tie (DESIGN.md section 15): the algorithmic functions this property rests on are also translated from the current source text on every run (tools/rs2lean.py) and proved equal to the model definitions (lean/CkcVerif/Tie, evidence coverage.source_tie lists which); a function outside the translator's subset, or whose tie theorem no longer checks, falls back to the correspondence alone.",
+            "technique": d["technique"] + "; model tied to the code by (a) regeneration of data from the compiled crate, (b) mechanical translation of the algorithmic functions from source with Lean theorems translated = model, (c) differential correspondence",
         })
     else:
         na.append({"property_id": pid, "reason": "not claimed yet: its Lean theorems and correspondence check are still under construction in this tree (see DESIGN.md section 6 for the plan)"})
@@ -42,7 +42,7 @@ m = {
         "name": "lean4-proof+correspondence",
         "path": "/verif/check",
         "serves_properties": sorted(PROPS),
-        "kind_free_text": "Lean 4 theorems about an executable model; data part of the model regenerated from the compiled crate on every run (tools/ckc-tools extract + tools/gen_lean.py), algorithmic part tied by a differential correspondence check (tools/ckc-tools harness vs lean/Driver.lean); implementation-vs-specification sweeps as the failing-input search",
+        "kind_free_text": "Lean 4 theorems about an executable model; data part of the model regenerated from the compiled crate on every run (tools/ckc-tools extract + tools/gen_lean.py), algorithmic part translated from the source text on every run (tools/rs2lean.py) and proved equal to the model (lean/CkcVerif/Tie), and additionally tied by a differential correspondence check (tools/ckc-tools harness vs lean/Driver.lean); implementation-vs-specification sweeps as the failing-input search",
     }],
     "checks": checks,
     "not_applicable": na,
